@@ -44,8 +44,8 @@ def await_table():
                         code = 4
                     elif fn.name == "handle_new_agent" and t.startswith("reader.read("):
                         code = "read"
-                    elif fn.name == "handle_new_agent" and t == "response_queue.get()":
-                        code = "get"
+                    elif fn.name == "handle_new_agent" and "response_queue.get()" in t:
+                        code = "get"        # also when wrapped (e.g. in asyncio.wait_for): the timer monitor deals with that
                     if code is not None:
                         for ln in range(n.lineno, (n.end_lineno or n.lineno) + 1):
                             tab[(fn.name, ln)] = code
@@ -147,8 +147,29 @@ class Session:
         k = canon_json(d)
         if k not in self.views:
             self.views[k] = len(self.views) + 1
-            self.view_objs[self.views[k]] = json.loads(json.dumps(d))
+            # for the reference goal check: the view in the scenario's own addresses (dynamic addresses: read back through the
+            # address maps published by the world at the moment the view first appears)
+            self.view_objs[self.views[k]] = self.view_back(json.loads(json.dumps(d)))
         return self.views[k]
+
+    def view_back(self, d):
+        g = getattr(self, "g", None)
+        ipm = getattr(g, "_ip_mapping", None) if g is not None else None
+        if not ipm or all(str(a) == str(b) for a, b in ipm.items()):
+            return d
+        back = {str(cur): str(orig) for orig, cur in ipm.items()}
+        nback = {(str(cur.ip), cur.mask): (str(orig.ip), orig.mask) for orig, cur in getattr(g, "_network_mapping", {}).items()}
+        t = lambda x: back.get(x, x)
+
+        def net(n):
+            a, m = nback.get((n["ip"], n["mask"]), (n["ip"], n["mask"]))
+            return {"ip": a, "mask": m}
+        return {"known_networks": [net(n) for n in d["known_networks"]],
+                "known_hosts": [{"ip": t(h["ip"])} for h in d["known_hosts"]],
+                "controlled_hosts": [{"ip": t(h["ip"])} for h in d["controlled_hosts"]],
+                "known_services": {t(k): v for k, v in d["known_services"].items()},
+                "known_data": {t(k): v for k, v in d["known_data"].items()},
+                "known_blocks": {t(k): [{"ip": t(b["ip"])} for b in v] for k, v in d["known_blocks"].items()}}
 
     def action_id(self, a_or_dict):
         d = a_or_dict if isinstance(a_or_dict, dict) else a_or_dict.as_dict
